@@ -80,7 +80,7 @@ func init() {
 
 func init() {
 	prop(&PropInfo{ID: "C17", Level: "other",
-		Explanation: "Decides the lifecycle protocol of MPCalContext on the control-flow graphs of Run, Stop and the nested-context adapter: the exit request is sent at most once (under the lock, flag tested and set on the same path, capacity 1) so Stop cannot block holding the lock Run's epilogue needs (STOP-ONCE); awaitExit is closed only under the lock and only once (CLOSE-ONCE: non-blocking-receive guard, or Run's epilogue, which is registered only for a context that never ran and was not stopped); every path of Stop waits for awaitExit outside the lock (STOP-WAITS); every loop iteration polls requestExit before BeginEvent/Body/commit (EXIT-POLL); cleanupResources closes every resource, exactly from the epilogue, errors merged (CLEANUP-ALL, RES-OWNER, RES-FORWARD for map elements); nested contexts report exactly once and are collected (NESTED-COUNT).",
+		Explanation: "Decides the lifecycle protocol of MPCalContext on the control-flow graphs of Run, Stop and the nested-context adapter: the exit request is sent at most once (under the lock, flag tested and set on the same path, capacity 1) so Stop cannot block holding the lock Run's epilogue needs (STOP-ONCE); awaitExit is closed only under the lock and only once (CLOSE-ONCE: non-blocking-receive guard, or Run's epilogue, which is registered only for a context that never ran and was not stopped); every path of Stop waits for awaitExit outside the lock (STOP-WAITS); every loop iteration polls requestExit before BeginEvent/Body/commit (EXIT-POLL); cleanupResources closes every resource, exactly from the epilogue, errors merged (CLEANUP-ALL, RES-OWNER, RES-FORWARD for map elements); nested contexts report exactly once and are collected (NESTED-COUNT). The hashmap behind the map resources lists every key it stores, so Close reaches every element (HASHMAP-KEYS).",
 		NotDecided:  "exactly-once Close when the same object is bound under two handles; duration bounds of cleanup; behaviour of a second Run after the first finished beyond the panic gate.",
 		Assumptions: commonAssumptions})
 }
@@ -94,14 +94,14 @@ func init() {
 
 func init() {
 	prop(&PropInfo{ID: "C19", Level: "other",
-		Explanation: "Decides the structural clauses of failure-detector completeness and settling on the control-flow graphs of fd.go: RunArchetype stores alive before Run, finished/failed on every normal exit according to Run's error and failed on every path after a recovered panic (FD-EXITSTATE); every poll iteration of mainLoop stores a state, the three failure successors store the constant failed, a reply is stored only without error and timeout, ErrShutdown forces a re-dial, reply variable and completion channel are per-poll (FD-FAILBRANCH); ReadValue writes nothing, cannot wait longer than one Sleep(pullInterval), and maps uninitialized->abort, alive->FALSE, everything else->TRUE (FD-READ).",
+		Explanation: "Decides the structural clauses of failure-detector completeness and settling on the control-flow graphs of fd.go: RunArchetype stores alive before Run, finished/failed on every normal exit according to Run's error and failed on every path after a recovered panic (FD-EXITSTATE); every poll iteration of mainLoop stores a state, the three failure successors store the constant failed, a reply is stored only without error and timeout, ErrShutdown forces a re-dial, reply variable and completion channel are per-poll (FD-FAILBRANCH); ReadValue writes nothing, cannot wait longer than one Sleep(pullInterval), and maps uninitialized->abort, alive->FALSE, everything else->TRUE (FD-READ). The state locks of the detector and the monitor are held across field accesses only, so a read never waits for a dial or RPC (FD-LOCK-SHORT); the plumbing clauses of FD-WIRING.",
 		NotDecided:  "the bound 'within k polling intervals', reachability of monitors, ordering of start events - timing and network behaviour.",
 		Assumptions: commonAssumptions})
 }
 
 func init() {
 	prop(&PropInfo{ID: "C18", Level: "other",
-		Explanation: "Decides the structural clauses of faithful, causally consistent traces on the control-flow graphs of Run/commit/abort/Read/Write and the value carriers: each attempt is begun once and logged exactly once, commit events only past the pre-commit test and after all resource commits, abort events after all rollbacks (EV-PAIR); accesses are recorded only by Read/Write, only when the operation succeeded, with that operation's name, indices and value (EV-RECORD); the own clock component is incremented exactly once per attempt between BeginEvent and Body and the logged clock is the sink's clock at logging time (CLK-INC); Read witnesses the value's clock before stripping, Write wraps with the writer's clock (CLK-WITNESS); the old-value hint channel is armed/disarmed around WriteValue (HINT-PAIR); carriers attach the writer's clock at commit (CLK-COMMITSTAMP).",
+		Explanation: "Decides the structural clauses of faithful, causally consistent traces on the control-flow graphs of Run/commit/abort/Read/Write and the value carriers: each attempt is begun once and logged exactly once, commit events only past the pre-commit test and after all resource commits, abort events after all rollbacks (EV-PAIR); accesses are recorded only by Read/Write, only when the operation succeeded, with that operation's name, indices and value (EV-RECORD); the own clock component is incremented exactly once per attempt between BeginEvent and Body and the logged clock is the sink's clock at logging time (CLK-INC); Read witnesses the value's clock before stripping, Write wraps with the writer's clock (CLK-WITNESS); the old-value hint channel is armed/disarmed around WriteValue (HINT-PAIR); carriers attach the writer's clock at commit (CLK-COMMITSTAMP). The mailbox-length view merges the clocks of exactly the backlog it counts (LEN-CLOCK); decision tables of the recorder / clock plumbing and of local variables (TRACE-DECISION, LOCAL-RES, VAL-DECISION, VCLOCK-MERGE).",
 		NotDecided:  "replayability of logged reads; dominance along multi-hop relays (value dependent); the JSON layout consumed by JSONToTLA.scala.",
 		Assumptions: commonAssumptions})
 }
@@ -115,8 +115,8 @@ func init() {
 
 func init() {
 	prop(&PropInfo{ID: "C02", Level: "translation_validation",
-		Explanation: "Purely syntactic translation validation of every checked-in spec/Go pair: the MPCal block is parsed and normalised as the compiler's front end does, and each critical section (statement structure, every read/write target and index, every expression as a canonical token sequence), each archetype/procedure table entry, each operator definition and each Goto/Call target is compared with what is recovered from the generated Go by inverting the code generator's templates. Neither artefact is executed and the Scala compiler is not needed.",
-		NotDecided:  "the PlusCal back end and the BEGIN TRANSLATION text; run-time semantics of the distsys library calls (C01/C03/C04); regroupings that keep the same tokens in the same order; the Scala compiler itself.",
+		Explanation: "Purely syntactic translation validation of every checked-in spec/Go pair: the MPCal block is parsed and normalised as the compiler's front end does, and each critical section (statement structure, every read/write target and index, every expression as its fully grouped parse tree: spec expressions are parsed with the front end's precedence table from TLAMeta.scala and junction lists by column, so regroupings are mismatches and redundant parentheses are not), each archetype/procedure table entry, each operator definition and each Goto/Call target is compared with what is recovered from the generated Go by inverting the code generator's templates. Neither artefact is executed and the Scala compiler is not needed.",
+		NotDecided:  "the PlusCal back end and the BEGIN TRANSLATION text; run-time semantics of the distsys library calls (C01/C03/C04); the Scala compiler itself.",
 		Assumptions: append([]string{"the re-implementation of MPCalNormalizePass and the inverted templates in checker/specmatch are faithful to pgo/src/trans (validated by agreement on all checked-in pairs)"}, commonAssumptions...)})
 }
 
